@@ -4,6 +4,7 @@ import (
 	"encoding/json"
 	"fmt"
 	"sort"
+	"strings"
 
 	"verif/internal/corpus"
 	"verif/internal/dec"
@@ -256,7 +257,19 @@ func runC03(c *Ctx) {
 	c.R.Rule("documents calculated under the 'currency' rule (explicit, or by regime default — Greece): synthesised with the C01 grammar restricted to the stated domain (fixed discount/charge/advance amounts, explicit bases and charge rates at the currency's precision; prices with up to six decimals; tax-included on/off) + every corpus document recalculated with tax.rounding=currency; non-trivial = document has ≥2 lines or a discount/charge/tax/advance; distinct by input")
 	c.R.Assume("no reference calculation: only the identities of the statement, evaluated in exact decimals on the presented JSON figures")
 	w := getWorld()
-	check := func(origin string, in []byte, feats map[string]bool) (ok bool, nontriv bool) {
+	var check func(origin string, in []byte, feats map[string]bool) (ok bool, nontriv bool)
+	// recalculation of a calculated document from which one kind of row was
+	// removed: the figures computed before must not survive
+	recheck := func(origin string, out []byte, pick func(int) int) {
+		if strings.HasPrefix(origin, "recalculated") {
+			return
+		}
+		if name, ed := staleEdit(out, pick); ed != nil {
+			c.R.Count("recalculated_after_removing:"+name, 1)
+			check("recalculated after removing "+name+" ("+origin+")", ed, nil)
+		}
+	}
+	check = func(origin string, in []byte, feats map[string]bool) (ok bool, nontriv bool) {
 		var out []byte
 		var err error
 		p, _ := Safely(func() {
@@ -291,6 +304,7 @@ func runC03(c *Ctx) {
 			}
 			c.R.Fail(cl, fmt.Sprintf("%s: %s", origin, det), map[string]any{"origin": origin, "input": json.RawMessage(in), "output": json.RawMessage(out)})
 		}
+		recheck(origin, out, func(n int) int { return int(ev.HashBytes(in) % uint64(n)) })
 		return true, len(d.Lines) > 1 || len(d.Discounts) > 0 || len(d.Charges) > 0 || (d.Totals != nil && d.Totals.Taxes != nil)
 	}
 	// corpus with the rule forced to currency
@@ -330,7 +344,7 @@ func runC03(c *Ctx) {
 		fc := map[string]int64{}
 		counts[ci] = fc
 		for k := 0; k < n/chunks; k++ {
-			p := gen.Profile{Schema: []string{"bill/invoice", "bill/invoice", "bill/order", "bill/delivery"}[rng.IntN(4)], CurrencyOnly: true, Rule: "currency", MaxLines: c.N(12, 30)}
+			p := gen.Profile{Schema: []string{"bill/invoice", "bill/invoice", "bill/order", "bill/delivery"}[rng.IntN(4)], CurrencyOnly: true, Rule: "currency", MaxLines: c.N(12, 30), Preset: true}
 			if rng.IntN(6) == 0 {
 				p.Rule = ""
 				p.Regimes = []string{"EL"} // currency rule by regime default
